@@ -17,6 +17,13 @@ FORMS = [
  F("pic14", "movlw", "movlw ", "", 8, bpa=2), F("tms9900", "li", "li r0, ", "", 16), F("68000", "moveq", "moveq #", ", d0", 8), F("68000", "addq", "addq.w #", ", d0", 3, lo=1, hi=8),
  F("epiphany", "beq", "beq ", "", 32, rel=(24, 2, 0)), F("epiphany", "b", "b ", "", 32, rel=(24, 2, 0)), F("epiphany", "bl", "bl ", "", 32, rel=(24, 2, 0)),
  F("thumb", "movs", "movs r0, #", "", 8, lo=0, hi=255), F("6800", "ldaa_imm", "ldaa #", "", 8), F("sh4", "mov_imm", "mov #", ", r1", 8),
+ # round 2: sibling instructions that share a field width but go through other table rows / operand-type branches of the same parsers
+ F("msp430", "cmp_imm", "cmp.w #", ", r5", 16), F("msp430", "subb_imm", "sub.b #", ", r5", 8), F("msp430", "jne", "jne ", "", 16, rel=(10, 2, 2)), F("msp430", "push_imm", "push #", "", 16), F("msp430", "call_imm", "call #", "", 16),
+ F("6502", "ldx_imm", "ldx #", "", 8), F("6502", "sta_abs", "sta ", "", 16), F("6502", "beq", "beq ", "", 16, rel=(8, 1, 2)),
+ F("z80", "ld_b_n", "ld b, ", "", 8), F("z80", "ld_bc_nn", "ld bc, ", "", 16), F("z80", "djnz", "djnz ", "", 16, rel=(8, 1, 2)),
+ F("8051", "add_a_imm", "add A, #", "", 8),
+ F("avr8", "subi", "subi r16, ", "", 8, bpa=2), F("avr8", "andi", "andi r17, ", "", 8, bpa=2), F("avr8", "sbiw", "sbiw r26, ", "", 6, lo=0, hi=63, bpa=2), F("avr8", "rcall", "rcall ", "", 16, rel=(12, 2, 2), bpa=2),
+ F("riscv", "andi", "andi t0, t0, ", "", 12, lo=-2048, hi=4095), F("riscv", "srai", "srai t0, t0, ", "", 5, lo=0, hi=31), F("riscv", "auipc", "auipc t0, ", "", 20, lo=-(1 << 19), hi=(1 << 20) - 1),
 ]
 QUICK = {"msp430", "6502", "z80", "avr8", "riscv", "8051", "epiphany"}
 
